@@ -7,3 +7,18 @@ from .. import schemabind as B, schemagen as G  # noqa
 # G.UNIONS[(cls, field)] = [class names]                   candidate classes of a union field
 # G.FIELD_POOL[(cls, field)] = [abstract values] | f(ver)  values of a field when the kind's pool does not fit
 # G.HOOKS[cls] = lambda gen, val, ver, depth: val          consistency between fields of a generated value
+
+from kmip.core import attributes, enums, objects, primitives, secrets, misc  # noqa: E402
+
+T = enums.Tags
+
+
+def _uid(v):
+    return attributes.UniqueIdentifier(v)
+
+
+for _c in ("ActivateRequestPayload", "ActivateResponsePayload", "RevokeRequestPayload", "RevokeResponsePayload"):
+    B.WRAP[(_c, "unique_identifier")] = _uid
+
+B.WRAP[("RevokeRequestPayload", "compromise_occurrence_date")] = \
+    lambda v: primitives.DateTime(v, tag=T.COMPROMISE_OCCURRENCE_DATE)
